@@ -15,6 +15,7 @@ import (
 	"reduction.dev/reduction/dkv/storage"
 	"reduction.dev/reduction/dkv/wal"
 	"reduction.dev/reduction/util/size"
+	"reduction.dev/reduction/util/verifhook"
 )
 
 var flushMemTablesQueue = bg.NewQueue(5)
@@ -184,6 +185,7 @@ func (db *DB) Delete(key []byte) {
 
 func (db *DB) Get(key []byte) (kv.Entry, error) {
 	sstables := db.currentSSTables()
+	verifhook.At("dkv.read.between", db)
 
 	// First try to get from the memtables
 	v, err := db.mtables.Get(key)
@@ -201,6 +203,7 @@ func (db *DB) Get(key []byte) (kv.Entry, error) {
 
 func (db *DB) ScanPrefix(prefix []byte, errOut *error) iter.Seq[kv.Entry] {
 	sstables := db.currentSSTables()
+	verifhook.At("dkv.read.between", db)
 	iters := []iter.Seq[kv.Entry]{db.mtables.ScanPrefix(prefix, errOut), sstables.ScanPrefixWithTombstones(prefix, errOut)}
 
 	// Delete markers take part in the merge so that a newer delete hides an older
@@ -226,11 +229,14 @@ func (db *DB) Checkpoint(ckptID uint64) (wait func() (recovery.CheckpointHandle,
 	db.wal = db.wal.Rotate(db.fs)
 	db.checkpoints.Add(ckptID, db.sstables, prevWAL, db.seqNum)
 	db.mu.Unlock()
+	verifhook.At("dkv.checkpoint.captured", db, ckptID)
 
 	return bg.Task2(func() (recovery.CheckpointHandle, error) {
+		verifhook.At("dkv.checkpoint.savewal", db, ckptID)
 		if err := prevWAL.Save(); err != nil {
 			return recovery.CheckpointHandle{}, err
 		}
+		verifhook.At("dkv.checkpoint.savedoc", db, ckptID)
 		uri, err := db.checkpoints.Save(db.fs)
 		if err != nil {
 			return recovery.CheckpointHandle{}, err
@@ -281,6 +287,7 @@ func (db *DB) rotateMemtable() {
 	// Write sealed tables to sstables
 	db.tasks.Enqueue(flushMemTablesQueue, func() error {
 		sealedTables := db.mtables.Sealed()
+		verifhook.At("dkv.flush.begin", db, len(sealedTables))
 
 		cs := &sst.ChangeSet{}
 		for _, mt := range sealedTables {
@@ -293,26 +300,32 @@ func (db *DB) rotateMemtable() {
 
 		// Replace the set of sstables, clear old memtables, clear wal entries all
 		// in one lock
+		verifhook.At("dkv.flush.commit", db, len(sealedTables))
 		db.mu.Lock()
 		db.sstables = db.sstables.NewWithChangeSet(cs)
 		db.mtables.Dequeue(sealedTables)
 		db.wal.Truncate(db.sstables.LatestSeqNum)
 		db.mu.Unlock()
+		verifhook.At("dkv.flush.done", db, len(sealedTables))
 
 		// Run compact steps until there is no changeset
 		db.tasks.Enqueue(compactionQueue, func() error {
 			for {
+				verifhook.At("dkv.compact.begin", db)
 				cs, err := db.compactor.Compact(db.currentSSTables())
 				if err != nil {
 					return err
 				}
 				if cs == nil {
+					verifhook.At("dkv.compact.idle", db)
 					return nil
 				}
 
+				verifhook.At("dkv.compact.commit", db, cs)
 				db.mu.Lock()
 				db.sstables = db.sstables.NewWithChangeSet(cs)
 				db.mu.Unlock()
+				verifhook.At("dkv.compact.done", db, cs)
 			}
 		})
 
